@@ -1888,12 +1888,15 @@ func (h *fsmHandler) recvMessageloop(ctx context.Context, conn net.Conn, holdtim
 					handling := fmsg.handling
 					useRevisedError := h.fsm.isTreatAsWithdraw
 
+					// A non-fatal decode error (attribute discard, treat-as-withdraw)
+					// must not skip the semantic validation: the message may still lack
+					// a mandatory attribute, carry duplicates or call for a stronger
+					// reaction. The strongest handling wins.
 					var validationErr error
-					if handling == bgp.ERROR_HANDLING_NONE {
-						ok, ve := bgp.ValidateUpdateMsg(body, rfMap, h.fsm.isEBGP, h.fsm.isConfed, h.allowLoopback)
-						if !ok {
+					if ok, ve := bgp.ValidateUpdateMsg(body, rfMap, h.fsm.isEBGP, h.fsm.isConfed, h.allowLoopback); !ok {
+						if vh := h.handlingError(m, ve, useRevisedError); vh > handling {
 							validationErr = ve
-							handling = h.handlingError(m, ve, useRevisedError)
+							handling = vh
 							fmsg.handling = handling
 						}
 					}
